@@ -22,6 +22,7 @@ const (
 	fPrePadding     = "C20-pre-padding"          // "\n  " and "\n" inserted inside <pre> around <code>
 	fLinkTextTrim   = "C20-inline-content-trim"  // leading/trailing space of link text trimmed
 	fEmptyDest      = "C20-empty-destination"    // [a]() renders <a> without href
+	fAltLineBreak   = "C20-alt-line-break"       // a line ending inside an image description is dropped
 	fTightSeparator = "C20-tight-item-separator" // no line break between a tight item's text and a following HTML block
 	maxDocLines     = 40
 	maxInlineDepth  = 3
@@ -408,7 +409,13 @@ func (g *gen) item(depth int, oneLine bool) string {
 		return g.refLink(depth, oneLine)
 	case 11:
 		alt := g.word()
-		switch g.n("alt", 0, 5) {
+		switch g.n("alt", 0, 7) {
+		case 6:
+			if !oneLine && g.allow(fAltLineBreak) {
+				alt = g.word() + "\n" + g.word() // a line ending inside the description
+			}
+		case 7:
+			alt = g.word() + " `" + g.word() + "` ~~" + g.word() + "~~"
 		case 0:
 			alt = ""
 		case 1:
